@@ -211,8 +211,11 @@ def kmeans_data(draw, max_rows=None, min_rows=3, maxF=4, degenerate=False, slow=
     n = integer(draw, max(min_rows, k), max_rows or (60 if big() else 30))
     scale = 10.0 ** integer(draw, -3, 3)
     offset = scale * choice(draw, [0.0, 0.0, 10.0, -100.0])
-    kind = choice(draw, ["blobs", "blobs", "uniform", "dupes"])
-    if kind == "uniform":
+    kind = choice(draw, ["blobs", "blobs", "uniform", "dupes", "grid"])
+    if kind == "grid":
+        # integer lattice points: exact ties between centroids (and duplicates) are common
+        X = r.integers(0, 5, (n, F)).astype(float)
+    elif kind == "uniform":
         X = r.uniform(-1, 1, (n, F))
     else:
         centres = r.normal(0, 3, (k, F))
@@ -220,6 +223,8 @@ def kmeans_data(draw, max_rows=None, min_rows=3, maxF=4, degenerate=False, slow=
     if kind == "dupes" and n >= 3:
         for _ in range(integer(draw, 1, max(1, n // 3))):
             X[r.integers(0, n)] = X[r.integers(0, n)]
+    if kind == "grid":
+        scale, offset = float(choice(draw, [1.0, 1.0, 4.0])), 0.0
     X = offset + scale * X
     return {"X": X, "k": k, "scale": scale, "kind": kind}
 
@@ -231,6 +236,11 @@ def kmeans_init(draw, X, k, scale, corner=False):
     if method == "array":
         idx = r.choice(X.shape[0], size=k, replace=X.shape[0] < k)
         init = X[idx] + scale * r.normal(0, 0.3, (k, X.shape[1]))
+        if np.array_equal(X, np.rint(X)) and choice(draw, [True, True, False]):
+            # lattice data: distinct data rows themselves as centroids (exactly tied samples are likely)
+            rows = np.unique(X, axis=0)
+            if len(rows) >= k:
+                init = rows[r.choice(len(rows), size=k, replace=False)].astype(float)
         if scale >= 1 and choice(draw, [False, False, True]):
             # an explicit array of INTEGER dtype is a valid initial centroid set too
             cand = np.rint(init).astype(np.int64)
@@ -271,6 +281,7 @@ def fa_case(draw, jfa=None, max_sessions=5, maxC=3, maxF=3, d_alive=None):
     sessions = [fractional_stats(draw, C, F, ubm["means"], ubm["variances"], n_frames=integer(draw, 1, 15), r=r,
                                  zero_prob=choice(draw, [0.0, 0.0, 0.3]))
                 for _ in range(H)]
+    sessions = share_counts(draw, sessions, ubm["variances"], r)
     return {"ubm": ubm, "jfa": bool(jfa), "U": U, "V": V, "D": D, "sessions": sessions,
             "u_scale": u_scale, "v_scale": v_scale, "d_exp": int(d_exp)}
 
@@ -301,3 +312,23 @@ def presentation(draw, X=None):
 def integral(X, scale=1.0):
     """Round the rows to integers (in units that keep them distinct enough) for the 'int' presentation."""
     return np.rint(np.asarray(X, dtype=float))
+
+
+def share_counts(draw, sessions, variances, r):
+    """Give some sessions BIT-IDENTICAL zeroth-order statistics (as hard/integer counts or equal-length sessions
+    with equal alignments produce): session j becomes session i's data shifted by a per-feature delta."""
+    if len(sessions) < 2 or not choice(draw, [False, False, True]):
+        return sessions
+    sd = np.sqrt(np.asarray(variances)).mean(axis=0)
+    for j in range(1, len(sessions)):
+        if r.random() < 0.6:
+            i = int(r.integers(0, j))
+            a = sessions[i]
+            d = sd * r.normal(0, 1.0, sd.shape)
+            n = a["n"].copy()
+            f = a["sum_px"] + n[:, None] * d[None, :]
+            out = {"t": a["t"], "n": n, "sum_px": f}
+            if "sum_pxx" in a:
+                out["sum_pxx"] = a["sum_pxx"] + 2 * d[None, :] * a["sum_px"] + n[:, None] * d[None, :] ** 2
+            sessions[j] = out
+    return sessions
